@@ -4,7 +4,7 @@
    ("requires 2 <= len(b) <= MaxLen") on every platform the toolchain has a native Index for (gen/Oracle.v: the least
    value $GOROOT/src/internal/bytealg ever assigns to MaxLen; 31 on amd64 without AVX2, where a longer needle runs
    AVX2 instructions). *)
-From Coq Require Import ZArith Lia.
+From Coq Require Import ZArith Lia List Bool.
 From Strcase Require Import Base Impl.
 From StrcaseGen Require Consts Oracle.
 Open Scope Z_scope.
@@ -19,3 +19,11 @@ Proof. destruct p; vm_compute; discriminate. Qed.
 
 Lemma native_contract_src_le (p : pkg) (rtMaxLen : Z) : Oracle.rt_maxlen_min <= rtMaxLen -> src_nativeMax p <= rtMaxLen.
 Proof. pose proof (native_contract_src p). lia. Qed.
+
+(* every product len*2 / len*3 of the length-ratio shortcuts, in both packages, multiplies an int64 (the D8 repair) —
+   so what the code computes there is the exact product on 32-bit targets too (IntWidth.product_in_int64_exact),
+   which is what the models' unbounded Z computes *)
+Lemma shortcut_products_in_int64 :
+  forallb snd (Consts.str_shortcut_products ++ Consts.byt_shortcut_products) = true /\
+  (length Consts.str_shortcut_products = 10 /\ length Consts.byt_shortcut_products = 10)%nat.
+Proof. vm_compute. repeat split. Qed.
